@@ -170,6 +170,9 @@ func (ic *inferContext) inferRelTypesFromPremise(premises []ast.Term, state *inf
 			if err != nil {
 				return nil, err // This cannot happen.
 			}
+			if len(relTypeArgs) != len(atom.Args) {
+				return nil, fmt.Errorf("pred %v has type %v but is used with %d arguments", atom.Predicate, alternative, len(atom.Args))
+			}
 			// TODO: handle type variables.
 			nextState := state.makeNext()
 			for i, a := range atom.Args {
